@@ -31,7 +31,12 @@ func goid() uint64 {
 type waiter struct {
 	point string
 	ch    chan struct{}
+	gid   uint64
 }
+
+// Stick is the smallest tape value that means "release the goroutine released last time again, if it is
+// parked" (depth-first runs of one goroutine, e.g. through a chain of datastore accesses).
+const Stick = 10
 
 // Step is one release decision of the controller.
 type Step struct {
@@ -60,6 +65,7 @@ type Sched struct {
 	locked map[uint64]int
 	// SkippedLocked counts yield points passed without parking for that reason.
 	SkippedLocked int
+	last          uint64 // goroutine released at the previous step
 }
 
 // New returns an active scheduler.
@@ -93,7 +99,7 @@ func (s *Sched) Yield(point string) {
 		s.mu.Unlock()
 		return
 	}
-	w := &waiter{point: point, ch: make(chan struct{})}
+	w := &waiter{point: point, ch: make(chan struct{}), gid: goid()}
 	s.parked = append(s.parked, w)
 	s.mu.Unlock()
 	<-w.ch
@@ -136,12 +142,22 @@ func (s *Sched) Run(tape []int, done func() bool, maxSteps int, tick time.Durati
 		idle = 0
 		k := 0
 		if s.Steps < len(tape) {
-			k = tape[s.Steps] % n
-			if k < 0 {
-				k = -k
+			tv := tape[s.Steps]
+			if tv < 0 {
+				tv = -tv
+			}
+			k = tv % n
+			if tv >= Stick {
+				for i, w := range s.parked {
+					if w.gid == s.last {
+						k = i
+						break
+					}
+				}
 			}
 		}
 		w := s.parked[k]
+		s.last = w.gid
 		s.parked = append(s.parked[:k:k], s.parked[k+1:]...)
 		others := make([]string, 0, len(s.parked))
 		for _, o := range s.parked {
